@@ -178,6 +178,7 @@ class FakePb:
         self.bounds.xl = ctx.arr([-INF] * n)
         self.bounds.xu = ctx.arr([INF] * n)
         self.is_feasibility = False
+        self.fun_last = math.nan           # (no target request in this harness)
         self._vals = vals
         self._ctx = ctx
         self.m_ub, self.m_eq = m_ub, m_eq
